@@ -9,6 +9,7 @@ import (
 	"os"
 	"sort"
 	"strings"
+	"sync"
 	"testing"
 	"time"
 
@@ -75,14 +76,31 @@ func TestCheck(t *testing.T) {
 	type famRow struct{ ownAccepted, ownRejected, privAccepted, privRejected int }
 	famTable := map[string]*famRow{}
 	sampled := map[string]bool{}
+	// the variant lists are a pure function of (valid token, seeded stream): generated for all consumers side by side (signing is the
+	// harness' own cost), presented strictly one after the other
+	lists := make([][]variant, len(consumers))
+	genErr := make([]any, len(consumers))
+	var wg sync.WaitGroup
 	for ci, c := range consumers {
-		inst := fmt.Sprintf("%s#%d", c.name, ci)
 		b := bulk
 		if c.bulkDiv > 0 {
 			b /= c.bulkDiv
 		}
-		vs := variants(c.seed, r.Rand("variants/"+inst), b)
-		vs = append(vs, c.extra...)
+		rnd := r.Rand(fmt.Sprintf("variants/%s#%d", c.name, ci))
+		wg.Add(1)
+		go func(ci int, c *consumer, b int) {
+			defer wg.Done()
+			defer func() { genErr[ci] = recover() }()
+			lists[ci] = variants(c.seed, rnd, b)
+		}(ci, c, b)
+	}
+	wg.Wait()
+	for ci, c := range consumers {
+		inst := fmt.Sprintf("%s#%d", c.name, ci)
+		if genErr[ci] != nil {
+			r.Fatalf("%s: variant generator: %v", inst, genErr[ci])
+		}
+		vs := append(lists[ci], c.extra...)
 		if err := strictVerify(c.seed, c.seed.compact); err != nil {
 			r.Fatalf("%s (%s): the harness' independent verifier rejects the valid token: %v", c.name, c.kind, err)
 		}
@@ -92,8 +110,6 @@ func TestCheck(t *testing.T) {
 			table[c.name] = rw
 			classTable[c.name] = map[string]*row{}
 		}
-		tStart := time.Now() //TIMING
-		defer func(n string, k int) { fmt.Fprintf(os.Stderr, "TIMING %s variants=%d %v\n", n, k, time.Since(tStart)) }(inst, len(vs)) //TIMING
 		for _, v := range vs {
 			o, err := c.present(v)
 			cr := classTable[c.name][v.class]
@@ -167,7 +183,11 @@ func TestCheck(t *testing.T) {
 			cr.accepted++
 			var indep string
 			if v.body == nil {
-				if err := strictVerify(c.seed, v.token); err != nil {
+				mandated := c.seed.pub
+				if v.pub != nil {
+					mandated = v.pub // the variant is signed by the key it embeds: the independent check is made with THAT key
+				}
+				if err := strictVerifyKey(c.seed, mandated, v.token); err != nil {
 					indep = err.Error()
 				}
 			}
@@ -272,7 +292,7 @@ func TestCheck(t *testing.T) {
 		r.Extra("per_consumer_and_key_family", fams)
 		r.Count("consumer_family_pairs_with_accepted_public_key_control", controls)
 		r.Count("consumer_family_pairs_where_only_the_private_members_decide", decisive)
-		if controls < 8 && os.Getenv("C17_NOFAM") == "" { //TIMING
+		if controls < 8 {
 			r.Fatalf("the public-key control of the embedded-private-key variants was accepted for only %d (consumer, key family) pairs: refusals of the private forms would prove nothing", controls)
 		}
 	}
